@@ -924,6 +924,10 @@ def gen_dag_model(draw, ncells=(4, 7), items=True, uncached=True, none_points=Fa
             rd = draw(st.sampled_from([["sum", "i", 1, ["sum", "j", 1, rd]], ["lam", "z", ["sum", "i", 1, rd], ["lit", 0]],
                                        ["sum", "i", 1, ["lam", "z", rd, ["lit", 0]]]]))
         terms.append(rd)
+        if rd[0] == "attr" and draw(st.integers(0, 2)) == 0:
+            # a second reference read by attribute path in the same formula (the other one of the two)
+            terms.append(["attr", ["name", "_model"], "g0"] if rd[2] == "r0"
+                         else ["attr", ["attr", ["name", "_model"], "S0"], "r0"])
         if draw(st.booleans()):
             # put the attribute read first so that it happens before the calls
             terms.insert(1, terms.pop())
